@@ -102,6 +102,7 @@ inline std::vector<GGroup> buildGroups(const Content& c, const Layout& l) {
             E.params.push_back(GParam::ints("FRAMES", {2}, {9, 8})); E.params.push_back(GParam::strs("LABELS", 3, {2}, {"xy", "z"})); E.params.push_back(GParam::floats("RATE", {}, {f2b(7.0f)}));
         }
         if (c.extra == "dsother") { E.params.push_back(GParam::ints("DATA_START", {}, {9})); E.params.push_back(GParam::floats("SCALE", {}, {f2b(0.5f)})); }   // the very name, in ANOTHER group
+        if (c.extra == "big") { std::vector<uint32_t> v; for (int i = 0; i < 100 * 90; ++i) v.push_back(f2b((float)i * 0.5f)); E.params.push_back(GParam::floats("TABLE", {100, 90}, v, false, D("a record above 32767 bytes"))); E.params.push_back(GParam::ints("AFTER", {}, {7})); }
         if (c.extra == "int0") { E.params.push_back(GParam::ints("ONE", {1}, {42})); E.params.push_back(GParam::floats("FONE", {1}, {f2b(4.25f)})); }
         G.push_back(E);
     }
@@ -177,7 +178,7 @@ inline std::vector<Dim> dims(bool thorough) {
     d.push_back({"events", {"0", "2", "18"}});
     d.push_back({"rates", {"100x2", "50x2", "29.97x2", "23.976x2", "0x1"}});
     d.push_back({"values", {"plain", "special"}});
-    d.push_back({"extra", {"small", "none", "bytes", "dim3", "str1d", "empty", "int0", "all", "char0d", "ctrlws", "dsprefix", "dsother"}});
+    d.push_back({"extra", {"small", "none", "bytes", "dim3", "str1d", "empty", "int0", "all", "char0d", "ctrlws", "dsprefix", "dsother", "big"}});
     d.push_back({"descs", {"short", "none", "lower", "d64", "d127", "d128", "d255"}});
     d.push_back({"names", {"std", "long"}});
     d.push_back({"hdrwords", {"std", "odd"}});
